@@ -62,6 +62,7 @@
     `T ptr-ops f ( p1 , … , pn ) qualifiers ;` in a class body is exactly ONE `on_class_method` with
     the access level in force and exactly the written qualifier flags.
 -/
+import CxxModel.Theorems.DeclGenItems
 import CxxModel.Blocks
 import CxxModel.Theorems.Events
 import CxxModel.Theorems.MethodEnd
@@ -433,5 +434,44 @@ theorem C03_nested_class (env : Env) (hc : env.cfg = genLexCfg) (hnf : env.fault
           h.cls.typename = .mk (.name first.value none :: pairs.map (fun p => .name p.2.value none)) (some kw.value) false)
         (fun nb mid => MSeqEv nb (blk :: rest) ms (defaultAccess kw.value) mid) evs :=
   (Member.cls env (by rw [hc]; exact gen_rules_progress) hnf F D hskip kw first pairs ms).sound w b' blk rest acc hst hk hacc hmu hat
+
+
+section
+open P
+
+/-- **`S ptr-ops x ;` in a class body through `parse()`'s loop, for ANY type specifier `S`** (`TypeSpecR`: qualified
+    names, fundamental keyword groups, any number of `const` / `volatile` before and after them): exactly ONE
+    `on_class_field` for the innermost open class, with the access level in force there and the type the pointer
+    chain denotes over the type `S` denotes -/
+theorem C03_cv_field (env : Env) (hp : RulesProgress env.cfg = true) (F D : Nat) (w : World)
+    (toks : List Tok) (first : Tok) (trest : List Tok) (segs : List PQSeg) (cst vol : Bool)
+    (ops : List Tok) (x semi : Tok) (d1 : DType) (b1 b0 bmid bx b' : Buf)
+    (blk : Block) (rest : List Block) (hstack : w.stack = blk :: rest) (hk : blk.hdr.kind = .cls) (acc : String) (hacc : blk.access = some acc)
+    (hmu : w.muted = false) (hfa : ¬ env.faultAt = some w.delivered)
+    (hspec : TypeSpecR env F D toks segs cst vol) (htoks : toks = first :: trest) (hfirst : specFirst first.type = true)
+    (htok : tokenEofOk env.cfg w.buf = .ok (some first, b1))
+    (hy0 : Yields env.cfg b1 trest b0)
+    (hops : opsHeadOk ops = true) (hopsv : ∀ o ∈ ops, o.value ≠ "auto")
+    (hy : Yields env.cfg b0 ops bmid)
+    (ha : applyPtrOps (.type (.mk segs none false) cst vol) (ops.map (·.type)) = some d1)
+    (htx : tokenEofOk env.cfg bmid = .ok (some x, bx)) (hx : x.type = "NAME") (hxv : identVal x.value = true)
+    (hsemi : tokenEofOk env.cfg bx = .ok (some semi, b')) (hs : semi.type = ";")
+    (hF : ops.length + 2 ≤ F) :
+    ∃ (d : Option String) (bD : Buf) (w7 : World) (ct : CTok) (dox : Option String) (ev : Event),
+      getDoxygen env.cfg env.mcRe w.buf = .ok (d, bD) ∧
+      interp env (mainBody F (core F (D + 1 + 1)) none) w = (w7, .ok (.inl none)) ∧
+      SigEq b' w7.buf ∧ ct.value = first.value ∧ w7.stack = { blk with loc := .tok ct.sidx } :: rest ∧
+      w7.events = w.events ++ [ev] ∧ ev.kind = .item (.classField (plainField x d1 acc dox)) ∧
+      ev.stateId = blk.id ∧ ev.parentId = rest.head?.map (·.id) ∧ (∀ dd, d = some dd → dox = some dd) ∧
+      w7.delivered = w.delivered + 1 ∧ w7.anon = w.anon ∧ w7.muted = false ∧ w7.nextId = w.nextId :=
+  toplevel_field_gen env hp F D w toks first trest segs cst vol ops x semi d1 b1 b0 bmid bx b' blk rest hstack hk acc hacc hmu hfa
+    hspec htoks hfirst htok hy0 hops hopsv hy ha htx hx hxv hsemi hs hF
+
+/-- such a member is a piece of whole class bodies: `Member.fieldGen` composes with every other member kind in
+    `Item.cls`, so `parse_source` covers classes whose data members have cv-qualified / fundamental types -/
+example (env : Env) (hp : RulesProgress env.cfg = true) (hnf : env.faultAt = none) (F D : Nat) (v : SpecDeclToks) :
+    Member env F (core F (D + 1 + 1 + 1 + 1)) := Member.fieldGen env hp hnf F D v
+
+end
 
 end Cxx
